@@ -119,6 +119,7 @@ Inductive wlayer :=
 | WPathError (op path : str)             (* *fs.PathError *)
 | WLinkError (op old new : str)          (* *os.LinkError *)
 | WSyscallError (sc : str)               (* *os.SyscallError *)
+| WOpError (op net src addr : str)       (* *net.OpError; Source / Addr nil when the string is empty *)
 | WUser (u : uwrap) (msg : str) (xs : list str).
 
 Inductive multik :=
@@ -218,6 +219,7 @@ Definition wrap_ty (w : wlayer) : str * str :=
   | WPkgMsg _ => (lit "github.com/pkg/errors", lit "*errors.withMessage")
   | WPkgStack _ => (lit "github.com/pkg/errors", lit "*errors.withStack")
   | WPathError _ _ => (lit "io/fs", lit "*fs.PathError")
+  | WOpError _ _ _ _ => (lit "net", lit "*net.OpError")
   | WLinkError _ _ _ => (lit "os", lit "*os.LinkError")
   | WSyscallError _ => (lit "os", lit "*os.SyscallError")
   | WUser u _ _ => (ut_pkg, uwrap_ty u)
